@@ -212,12 +212,38 @@ func suClassify(fan string, from int64) (writes int, sweep bool, measure bool, f
 	return
 }
 
+// flakyPersistence: the real persistence, except that the `failAt`-th LoadFanPwmMap of ONE start fails with a transient
+// error (what a concurrently running `fan2go fan reset`, or a database briefly locked by another tool, looks like to a
+// controller that reads the same entry more than once during one start-up)
+type flakyPersistence struct {
+	persistence.Persistence
+	failAt int
+	n      int64
+}
+
+func (p *flakyPersistence) LoadFanPwmMap(fanId string) (map[int]int, error) {
+	if int(atomic.AddInt64(&p.n, 1)) == p.failAt {
+		return nil, fmt.Errorf("transient database error")
+	}
+	return p.Persistence.LoadFanPwmMap(fanId)
+}
+
+// fan id -> failAt, consumed by the fan's next start
+var suFlaky = map[string]int{}
+var suFlakyMu sync.Mutex
+
 func suRunOne(f *suFan, ctx context.Context, cancelAfterEval bool) (res string, from int64) {
 	from = atomic.LoadInt64(&suSeq)
 	fan := f.newFan()
 	curve := &suCurve{id: f.cfg.Curve, fan: f, done: make(chan struct{})}
 	curves.RegisterSpeedCurve(curve)
-	p := persistence.NewPersistence(suDb)
+	var p persistence.Persistence = persistence.NewPersistence(suDb)
+	suFlakyMu.Lock()
+	if at, ok := suFlaky[f.id]; ok {
+		delete(suFlaky, f.id)
+		p = &flakyPersistence{Persistence: p, failAt: at}
+	}
+	suFlakyMu.Unlock()
 	c := controller.NewFanController(p, fan, control_loop.NewDirectControlLoop(nil), 2*time.Millisecond)
 	cctx, cancel := context.WithCancel(ctx)
 	defer cancel()
@@ -314,6 +340,11 @@ func init() {
 			w, sweep, measure, _, _ := suClassify(f.id, from)
 			_ = w
 			return fmt.Sprintf("res=%s sweep=%s measure=%s %s", res, b01(sweep), b01(measure), suStored(f))
+		case "su.flaky":
+			suFlakyMu.Lock()
+			suFlaky[a.str("fan", "f1")] = a.int("at", 2)
+			suFlakyMu.Unlock()
+			return "ok"
 		case "su.delmap":
 			f := suFans[a.str("fan", "f1")]
 			p := persistence.NewPersistence(suDb)
@@ -448,6 +479,50 @@ func init() {
 			suRecord(f.id, "eval")
 			_, sweep, measure, _, _ := suClassify(f.id, from)
 			return fmt.Sprintf("res=%s sweep=%s measure=%s %s", errTok(err), b01(sweep), b01(measure), suStored(f))
+		case "su.lookups":
+			// what concurrently starting controllers do first: every fan looks its stored RPM curve and PWM map up, all at
+			// the same moment, on the one database file (`rounds` times each). A look-up of a stored entry that fails makes
+			// Run / computePwmMap answer with the analysis (load error => RunInitializationSequence / sweep).
+			ids := strings.Split(a.str("fans", "f1,f2"), ",")
+			rounds := a.int("rounds", 100)
+			deadline := time.Now().Add(time.Duration(a.int("ms", 0)) * time.Millisecond) // ms>0: run for that long instead
+			var wg sync.WaitGroup
+			var failed int64
+			start := make(chan struct{})
+			// which entries exist (sequential look-ups first): only those must be found under concurrency
+			hasData, hasMap := map[string]bool{}, map[string]bool{}
+			for _, id := range ids {
+				p := persistence.NewPersistence(suDb)
+				fan := suFans[id].newFan()
+				_, e1 := p.LoadFanPwmData(fan)
+				_, e2 := p.LoadFanPwmMap(fan.GetId())
+				hasData[id], hasMap[id] = e1 == nil, e2 == nil
+			}
+			for _, id := range ids {
+				wg.Add(1)
+				go func(id string) {
+					defer wg.Done()
+					f := suFans[id]
+					fan := f.newFan()
+					p := persistence.NewPersistence(suDb)
+					<-start
+					for k := 0; k < rounds || (a.int("ms", 0) > 0 && time.Now().Before(deadline)); k++ {
+						if hasData[id] {
+							if _, err := p.LoadFanPwmData(fan); err != nil {
+								atomic.AddInt64(&failed, 1)
+							}
+						}
+						if hasMap[id] {
+							if _, err := p.LoadFanPwmMap(fan.GetId()); err != nil {
+								atomic.AddInt64(&failed, 1)
+							}
+						}
+					}
+				}(id)
+			}
+			close(start)
+			wg.Wait()
+			return fmt.Sprintf("ok failed=%d", atomic.LoadInt64(&failed))
 		case "su.together":
 			// start several fans concurrently (C16); report whether any two analysis intervals overlap
 			ids := strings.Split(a.str("fans", "f1,f2"), ",")
